@@ -71,6 +71,21 @@ def run_property(spec):
     t0 = time.time()
     obligations = []      # (kind, name, ok, detail)
     lib.import_luqum()
+    # watchdog: a check never hangs; past the limit it reports that it could not conclude
+    import signal as _signal
+
+    def _too_long(signum, frame):
+        path = lib.write_replay(prop, {"property": prop, "kind": "obligation-no-longer-checks",
+                                       "broken_obligations": [["correspondence", "termination of the check",
+                                                               "the check did not finish within its time limit "
+                                                               "(a call on the implementation or the build hangs)"]]})
+        print("VIOLATION property=%s replay=%s no-failing-input-found" % (prop, path), flush=True)
+        os._exit(1)
+    try:
+        _signal.signal(_signal.SIGALRM, _too_long)
+        _signal.alarm(int(os.environ.get("VERIF_TIME_LIMIT", "2700" if lib.tier() == "quick" else "14400")))
+    except (ValueError, AttributeError):
+        pass
     spec = dict(spec)
     spec["theorems"] = _all_theorems(spec["module"], spec["theorems"])
     spec["more"] = [dict(e, theorems=_all_theorems(e["module"], e["theorems"])) for e in spec.get("more", [])]
